@@ -349,28 +349,31 @@ def itemsToQueue (loc : Loc) : List ListItem → List Expr → Except Err (List 
     if spread then .error (Err.at loc Leaf.ItemSpreadInParamList) else itemsToQueue loc r (e :: acc)
 
 /-- `validate_args`: breadth-first over the parameter patterns; stops (quirk) at the first `_` -/
-def validateArgs : Nat → List Expr → List (List Char × Loc) → Option (Option Err)
-  | 0, _, _ => none
-  | _ + 1, [], _ => some none
-  | n + 1, .mk raw loc :: q, names =>
-    match raw with
-    | .Var name =>
-      if name = c!"_" then some none
-      else
-        match lookupAssoc name names with
-        | some (l, c) => some (some (Err.at loc (Leaf.DupParamName name l c)))
-        | none => validateArgs n q ((name, loc) :: names)
-    | .Object props =>
-      match propsToQueue loc props [] with
-      | .error e => some (some e)
-      | .ok more => validateArgs n (q ++ more) names
-    | .List items _ =>
-      match itemsToQueue loc items [] with
-      | .error e => some (some e)
-      | .ok more => validateArgs n (q ++ more) names
-    | r =>
-      match invalidBindDescr r with
-      | some d => some (some (Err.at loc (Leaf.InvalidBindTarget d)))
-      | none => some none
+def validateArgs (fuel : Nat) (queue : List Expr) (names : List (List Char × Loc)) : Option (Option Err) :=
+  match fuel with
+  | 0 => none
+  | n + 1 =>
+    match queue with
+    | [] => some none
+    | .mk raw loc :: q =>
+      match raw with
+      | .Var name =>
+        if name = c!"_" then some none
+        else
+          match lookupAssoc name names with
+          | some (l, c) => some (some (Err.at loc (Leaf.DupParamName name l c)))
+          | none => validateArgs n q ((name, loc) :: names)
+      | .Object props =>
+        match propsToQueue loc props [] with
+        | .error e => some (some e)
+        | .ok more => validateArgs n (q ++ more) names
+      | .List items _ =>
+        match itemsToQueue loc items [] with
+        | .error e => some (some e)
+        | .ok more => validateArgs n (q ++ more) names
+      | r =>
+        match invalidBindDescr r with
+        | some d => some (some (Err.at loc (Leaf.InvalidBindTarget d)))
+        | none => some none
 
 end Seed
